@@ -101,7 +101,7 @@ mod verif_memc {
 
     // C07 creation rule
     #[kani::proof]
-    #[kani::unwind(24)]
+    #[kani::unwind(8)]
     fn add_delta_absent() {
         let ack: u64 = kani::any();
         kani::assume(ack != 0);
